@@ -199,17 +199,25 @@ def run(ctx):
     thms = ctx.build_and_audit(["NutsProofs.Props.C10"])
     required = ["resolve_order_independent", "store_is_fold", "merge_deterministic", "before_strict_total",
                 "insert_sorted_perm", "deactivated_monotone", "conflict_resolved_by_covering_update", "stats_order_independent", "stats_are_what_the_states_imply",
+                "observations_order_independent", "restart_changes_nothing", "iterators_agree_with_counters",
+                "resolve_answers_satisfy_filters", "deactivation_is_permanent", "covering_update_resolves_any_order",
+                "history_is_the_sorted_event_list",
                 "fact_map_built_fields_sorted", "fact_writer_has_no_map_range", "fact_conflicted_flag_read_unconditionally"]
     for r in required:
         if not any(t.endswith("Props." + r) for t in thms):
             ctx.oblige("thm-present:" + r, False, "theorem missing or its module does not build")
     ctx.trusted += [
         "modelled, not verified: go-did JSON (un)marshalling of documents, SHA-256 of the merged document (model: injective rendering), bbolt atomic write transactions, go-stoabs",
-        "model scope: vdr/didnuts/didstore event.go, writer.go (applyFrom/applyEvent/applyDocument), merge.go, store.go (Add/Resolve/stats), metadata.go",
+        "model scope: vdr/didnuts/didstore event.go, writer.go (applyFrom/applyEvent/applyDocument incl. the in-memory conflicted cache), merge.go, "
+        "store.go (Add/Resolve/Iterate/Conflicted/loadConflictedDocuments/HistorySinceVersion/stats), metadata.go (asVDRMetadata), finder.go; "
+        "the shelves (metadataV2 keys DID+version, latestV2, documentsV2, txRefV2, MetaRef numbering) are abstracted to the per-DID chain — "
+        "that abstraction is tied by correspondence and by the pinned key expressions, not by proof",
     ]
     ctx.assumptions += [
         "a transaction ref identifies the transaction (RefFun) and a payload hash identifies the document (content addressing)",
         "documents of one arrival set share no (ref) with different content; bbolt write transactions are atomic and serialised (WithWriteLock)",
+        "an Add that returned an error is delivered again (the DAG notifier retries); every document of a DID's transactions carries that DID as its id",
+        "no DID string is another DID string followed by decimal digits (metadata keys are DID+version without separator; did:nuts ids are fixed-alphabet hashes of the creating key)",
     ]
 
     binary = ctx.go_test_binary(PKG, HARNESS, "c10")
